@@ -71,7 +71,7 @@ Proof. exact wire_thm. Qed.
 Print Assumptions C09_wire.
 
 (* non-vacuity *)
-Example C09_table_nonempty : 50 <= length units.
+Example C09_table_nonempty : 50 <= List.length units.
 Proof. exact units_nonempty. Qed.
 
 (* a program of the theorem's shape: 3 threads over the first three summaries, instance 7 *)
